@@ -65,6 +65,9 @@ def bonds_menu(kind, natom, types):
     if kind == "last-atoms":
         rows = [[natom - 2, natom - 1, types[0]]] + ([[natom - 3, natom - 1, types[-1]], [0, natom - 1, types[len(types) // 2]]] if natom > 2 else [])
         return np.array(rows, dtype=int)
+    if kind == "reversed":  # the higher atom index first in some rows (a bond is an unordered pair; either order is legitimate)
+        rows = [[natom - 1, 0, types[0]]] + ([[1, 0, types[-1]], [natom - 1, 1, types[len(types) // 2]], [1, 2, types[0]]] if natom > 2 else [])
+        return np.array(rows, dtype=int)
     n = {"one": 1, "few": 3, "nine": 9, "ten": 10, "99": 99, "100": 100, "101": 101, "all-types": len(types), "hub": min(natom - 1, 9), "chain": natom - 1}[kind]
     rows = []
     if kind == "hub":
@@ -233,7 +236,7 @@ class SDF(Spec):
         ("elements", ["OHH", "all-Z", "two-letter"]),
         ("coords", ["small", "negative", "wide", "tiny"]),
         _title_axis(),
-        ("bonds", ["last-atoms", "none", "one", "few", "nine", "ten", "99", "100", "101", "all-types", "hub", "chain", "empty-array"]),
+        ("bonds", ["last-atoms", "none", "one", "few", "nine", "ten", "99", "100", "101", "all-types", "hub", "chain", "empty-array", "reversed"]),
     ]
 
     def build(self, case, seed):
@@ -274,7 +277,7 @@ class MOL2(Spec):
         ("elements", ["OHH", "all-Z", "two-letter"]),
         ("coords", ["small", "negative", "wide", "tiny"]),
         _title_axis(),
-        ("bonds", ["last-atoms", "none", "one", "few", "ten", "100", "all-types", "hub", "chain"]),
+        ("bonds", ["last-atoms", "none", "one", "few", "ten", "100", "all-types", "hub", "chain", "reversed"]),
         ("charges", ["none", "mol2charges", "other-key-only"]),
         ("attypes", ["none", "given"]),
     ]
@@ -322,7 +325,7 @@ class PDB(Spec):
         ("elements", ["OHH", "all-Z", "two-letter"]),
         ("coords", ["small", "negative", "wide", "tiny"]),
         _title_axis(),
-        ("bonds", ["last-atoms", "none", "one", "few", "ten", "hub", "chain"]),
+        ("bonds", ["last-atoms", "none", "one", "few", "ten", "hub", "chain", "reversed"]),
         ("atffparams", ["none", "attypes", "restypes+resnums", "all", "wide-resnums"]),
         ("extra", ["none", "occupancies+bfactors", "chainids", "compound", "compound-multiline", "compound-14-lines", "all", "bfactors-only", "occupancies-only"]),
     ]
